@@ -378,7 +378,15 @@ func (r *Runner) compareObs(in *inst, st *Step, si int) {
 		}
 		sort.Ints(got)
 		if fmt.Sprint(got) != fmt.Sprint(st.Obs.Fields) {
-			r.violate("C19", "gql-type", si, "after %s the GraphQL type T has the fields f%v, the active version %d knows f%v", st.Op, got, st.Obs.Active, st.Obs.Fields)
+			// after a discarded schema transaction the running node's type system is ahead of its store: exactly what a
+			// restart would undo (C14); otherwise it is the schema operation itself that is wrong (C19)
+			prop := "C19"
+			for _, e := range r.cur[:si+1] {
+				if e.Op == "discardedpatch" {
+					prop = "C14"
+				}
+			}
+			r.violate(prop, "gql-type", si, "after %s the GraphQL type T of the running node has the fields f%v, the active version %d knows f%v", st.Op, got, st.Obs.Active, st.Obs.Fields)
 		}
 	}
 	// commit history length per document is unchanged by schema operations
